@@ -87,7 +87,7 @@ def recheck(ex, mods, o, tier_opts):
         try:
             from pyvc.run import make_explorer
             from pyvc.engine import _case_str
-            ex2 = make_explorer(mods, timeout_ms=6 * tier_opts.get('timeout_ms', 10000))
+            ex2 = make_explorer(mods, timeout_ms=6 * tier_opts.get('timeout_ms', 10000), strict=False)
             c = ex2.contracts[o['contract']]
             info = ex2.index.find_function(c.target) if c.target else None
             case = next((cs for cs in ex2.cases(c, info) if _case_str(cs) == o['case']), None)
@@ -171,6 +171,7 @@ def main(argv=None):
             # normal run has a 3x margin (obligations that need more stay outside the ledger: if they do not
             # discharge in a later run they are listed as undecided, never reported as violations)
             tier_opts['timeout_ms'] = 3500
+            tier_opts['strict'] = True
         os.environ['VERIF_TIER'] = a.tier
         sym_names = [n for n in names if not (a.tier == 'quick' and ex0.contracts[n].opts.get('symbolic_tier') == 'thorough')]
         reports, ex = run(mods, sym_names, procs=a.j, opts=tier_opts)
